@@ -8,8 +8,7 @@ Arguments smem : simpl never.
 Arguments m_mem : simpl never.
 Arguments all_present : simpl never.
 
-Definition kw_rel (dk : option str) (ks : list str) : Prop :=
-  (dk = None /\ ks = []) \/ dk = Some (join ks).
+Arguments kw_read3 : simpl never.
 
 Definition enum_rel (tbl : list str) (dn : option str) (sv : option N) : Prop :=
   match sv with
@@ -22,7 +21,8 @@ Definition vp_ok (o : option vprefs) : Prop :=
 
 Record Rel (d : doc) (s : store) : Prop := {
   r_ver : d_ver d = 17 /\ s_ver s = 17;
-  r_kw : kw_rel (d_kw d) (s_kw s);
+  r_kw : kw_read d = s_kw s;          (* Info keywords and XMP keywords, merged *)
+  r_has : d_hasinfo d = true \/ s_kw s = [];
   r_kws : ssorted (s_kw s);
   r_kww : Forall (fun k => wfk k = true) (s_kw s);
   r_pr : d_info d = s_pr s;
@@ -40,12 +40,39 @@ Proof.
   constructor; simpl; auto; try exact I; try constructor; auto.
 Qed.
 
-Lemma kw_read_rel : forall d s, Rel d s -> kw_read d = s_kw s.
+Lemma kw_of_text_sorted : forall t, ssorted (kw_of_text t).
 Proof.
-  intros d s R. unfold kw_read. destruct (r_kw _ _ R) as [[E1 E2]|E].
-  - now rewrite E1, E2.
-  - rewrite E. apply kw_of_text_join; [apply (r_kws _ _ R)|apply (r_kww _ _ R)].
+  intros t. unfold kw_of_text. rewrite fold_left_map_trim. apply fold_ins_sorted. exact I.
 Qed.
+
+Lemma kw_read3_sorted : forall v kw x, ssorted (kw_read3 v kw x).
+Proof.
+  intros v kw x. unfold kw_read3. rewrite fold_left_map_trim. apply fold_ins_sorted.
+  destruct kw; [apply kw_of_text_sorted|exact I].
+Qed.
+
+(* a starting document with an Info dictionary and catalog XMP: the store starts with the
+   union of the Info keywords and the XMP keywords *)
+Lemma rel_init : forall kw x, let d := init_doc 17 true kw x in
+  Forall (fun k => wfk k = true) (kw_read d) -> Rel d (init_store d).
+Proof.
+  intros kw x d W. constructor; simpl; auto; try exact I; try constructor; auto.
+  apply kw_read3_sorted.
+Qed.
+
+Lemma xmp_text3_scrub : forall v x, xmp_text3 v (fst (xmp_scrub x)) = [].
+Proof. intros v [[t|]|]; unfold xmp_text3; simpl; destruct (v <? 14); reflexivity. Qed.
+
+Lemma kw_read3_scrub : forall v kw x,
+  kw_read3 v kw (fst (xmp_scrub x)) = match kw with None => [] | Some t => kw_of_text t end.
+Proof. intros v kw x. unfold kw_read3. now rewrite xmp_text3_scrub. Qed.
+
+Lemma kw_read3_clean : forall v kw x, xmp_text3 v x = [] ->
+  kw_read3 v kw x = match kw with None => [] | Some t => kw_of_text t end.
+Proof. intros v kw x H. unfold kw_read3. now rewrite H. Qed.
+
+Lemma kw_read_rel : forall d s, Rel d s -> kw_read d = s_kw s.
+Proof. intros d s R. apply (r_kw _ _ R). Qed.
 
 Lemma readable_rel : forall d s, Rel d s -> readable d = true.
 Proof.
@@ -108,7 +135,7 @@ Lemma persist_rel_info : forall (d : doc) i, msorted i -> Forall good_entry i ->
 Proof. intros d i Hs Hg E. unfold persist. simpl. rewrite E. eapply persist_info_id; eauto. Qed.
 
 Ltac rel_fields R :=
-  pose proof (r_ver _ _ R) as Rver; pose proof (r_kw _ _ R) as Rkw; pose proof (r_kws _ _ R) as Rkws;
+  pose proof (r_ver _ _ R) as Rver; pose proof (r_kw _ _ R) as Rkw; pose proof (r_has _ _ R) as Rhas; pose proof (r_kws _ _ R) as Rkws;
   pose proof (r_kww _ _ R) as Rkww; pose proof (r_pr _ _ R) as Rpr; pose proof (r_prs _ _ R) as Rprs;
   pose proof (r_prg _ _ R) as Rprg; pose proof (r_pl _ _ R) as Rpl; pose proof (r_pm _ _ R) as Rpm;
   pose proof (r_vp _ _ R) as Rvp; pose proof (r_vpo _ _ R) as Rvpo; pose proof (r_att _ _ R) as Ratt.
@@ -151,38 +178,51 @@ Proof. induction ids as [|x r IH]; simpl; intros m; [reflexivity|apply IH]. Qed.
 Lemma all_present_nil : forall i ids', all_present (i :: ids') [] = false.
 Proof. intros i ids'. unfold all_present. cbn [fold_left fst snd]. unfold m_mem at 1. simpl. apply all_present_false. Qed.
 
+Arguments xmp_scrub : simpl never.
+
+(* "remove all properties" also drops the catalog XMP packet: it keeps the keywords only if
+   the packet contributes none at that moment *)
+Definition safe_op (d : doc) (o : op) : Prop :=
+  match o with PRemove [] => xmp_text3 (d_ver d) (d_xmp d) = [] | _ => True end.
+
 Ltac fin :=
   constructor; simpl; try rewrite ver17 by assumption;
   try solve [ assumption | auto | exact I | constructor | now left | now right
-            | (match goal with H : d_info _ = _ |- _ => rewrite H end; eapply persist_info_id; eauto) ].
+            | (match goal with H : d_info _ = _ |- _ => rewrite H end; eapply persist_info_id; eauto)
+            | (unfold kw_read; simpl; try rewrite ver17 by assumption; rewrite ?kw_read3_scrub; assumption) ].
 
-Lemma step_rel : forall d s o, Rel d s -> wf_op o = true -> fresh_op s o ->
+Lemma step_rel : forall d s o, Rel d s -> wf_op o = true -> fresh_op s o -> safe_op d o ->
   Rel (fst (step d o)) (astep s o).
 Proof.
-  intros d s o R W F. unfold step. rewrite (readable_rel _ _ R). simpl.
+  intros d s o R W F SF. unfold step. rewrite (readable_rel _ _ R). simpl.
   rel_fields R.
   destruct s as [ver kw pr pl pm vp att]. simpl in *. destruct Rver as [Vd Vs]. subst ver.
+  pose proof Rkw as Rkw3. unfold kw_read in Rkw3. rewrite Vd in Rkw3.
   destruct o as [ks|ks|kvs|ks|v| |v| |new| |id data|ids]; simpl in W.
   - (* KAdd *)
     rewrite (wfk_not_blank _ W). simpl.
-    rewrite (kw_read_rel _ _ R). simpl. rewrite (fold_ins_trim_wf _ _ W).
+    rewrite Rkw. simpl. rewrite (fold_ins_trim_wf _ _ W).
     assert (Wf : Forall (fun k => wfk k = true) ks) by (apply Forall_forall; now apply forallb_forall).
+    assert (S1 : ssorted (fold_left (fun a k => set_ins k a) ks kw)) by now apply fold_ins_sorted.
+    assert (W1 : Forall (fun k => wfk k = true) (fold_left (fun a k => set_ins k a) ks kw)) by now apply fold_ins_Forall.
     fin.
-    + now apply fold_ins_sorted.
-    + now apply fold_ins_Forall.
+    unfold kw_read; simpl. rewrite kw_read3_scrub. now apply kw_of_text_join.
   - (* KRemove *)
     destruct ks as [|k ks'].
-    + destruct (d_kw d) eqn:Ek; simpl.
-      * fin.
-      * destruct Rkw as [[_ ->]|Rkw]; [|discriminate].
-        fin.
-    + rewrite (wfk_not_blank _ W). rewrite (map_trim_wf _ W). rewrite (kw_read_rel _ _ R). simpl s_kw.
+    + destruct (d_hasinfo d) eqn:Hi; simpl.
+      * destruct (_ || _ || _) eqn:Rm; simpl.
+        -- fin. unfold kw_read; simpl. now rewrite kw_read3_scrub.
+        -- apply orb_false_iff in Rm as [_ Rm]. rewrite Rkw in Rm. destruct kw; [|discriminate]. fin.
+      * destruct Rhas as [Rhas|Rhas]; [discriminate|]. rewrite Rhas in *. fin.
+    + rewrite (wfk_not_blank _ W). rewrite (map_trim_wf _ W). rewrite Rkw.
       cbv beta iota. remember (k :: ks') as ks eqn:Eks.
-      destruct (existsb (fun k0 => smem k0 ks) kw) eqn:Ex; simpl.
-      * fin.
-        -- now apply filter_sorted.
-        -- now apply filter_Forall.
-      * rewrite (filter_none_present _ _ Ex). fin.
+      destruct (d_hasinfo d) eqn:Hi; simpl.
+      * destruct (existsb (fun k0 => smem k0 ks) kw) eqn:Ex; simpl.
+        -- assert (S1 : ssorted (filter (fun k0 => negb (smem k0 ks)) kw)) by now apply filter_sorted.
+           assert (W1 : Forall (fun k0 => wfk k0 = true) (filter (fun k0 => negb (smem k0 ks)) kw)) by now apply filter_Forall.
+           fin. unfold kw_read; simpl. rewrite kw_read3_scrub. now apply kw_of_text_join.
+        -- rewrite (filter_none_present _ _ Ex). fin.
+      * destruct Rhas as [Rhas|Rhas]; [discriminate|]. rewrite Rhas in *. simpl. fin.
   - (* PAdd *)
     destruct (padd_valid kvs) eqn:Pv; simpl.
     + pose proof (padd_good _ Pv W) as G.
@@ -194,10 +234,13 @@ Proof.
   - (* PRemove *)
     destruct ks as [|k ks'].
     + (* remove all *)
+      simpl in SF. rewrite Vd in SF.
       rewrite Rpr. rewrite props_read_id by assumption.
+      assert (KW : kw_read3 17 (d_kw d) None = kw).
+      { rewrite <- Rkw3. rewrite (kw_read3_clean _ _ _ SF). now apply kw_read3_clean. }
       destruct pr as [|e pr'].
-      * fin.
-      * cbv beta iota. pose proof (remove_all_props (e :: pr')) as RA. cbn [fold_left] in RA. rewrite RA. fin.
+      * destruct (d_xmp d) eqn:Ex; fin.
+      * cbv beta iota. rewrite remove_all_props. fin.
     + cbv beta iota. remember (k :: ks') as ks eqn:Eks.
       destruct (prem_valid ks) eqn:Pv; simpl; [|fin].
       rewrite Rpr. destruct (existsb (fun k0 => m_mem k0 pr) ks) eqn:Ex; simpl.
